@@ -41,8 +41,8 @@ from lts import LTS
 
 MANIFEST = dict(
     technique="TLA+ spec (Debtags: reference relation (P,T,R) + implementation layer db/rdb with every DB method transcribed) model-checked closed by TLC; complete reference LTS replayed into debtags.DB; recorded histories validated by TLC (TraceDebtags); named deviation for the open known finding",
-    text="TLC explores the closed state space of the two-layer model (3 packages of length 1/2/3 x 3 tags in 2 facets, reads with and without tag filter, inserts, reverse, copies, choose/filter derivations, facet collection; thorough: 4 packages) and checks in every reachable state that the two dictionaries are mutually inverse, refine the reference relation and that the query operators agree with it; with the named deviation InsertNewTagStoresChars switched on TLC reports Inverse violated (negative control). The source of every copy()/reverse_copy() is kept as a second observed object with explicit identities of shared set objects: it stays inverse and unchanged whatever is done to the copy (negative control ShallowCopy: TLC reports SourceInverse violated). Binding is two-way: every transition of the reference LTS plus random walks are replayed into the real DB class (all method variants: _copy forms, reverse/reverse_copy, copy/pickle) comparing both projected pair sets, key sets and all query methods with TLC's expected state, and the retained source of the last copy with the state it was copied in; histories recorded from the real class with up to 30 packages and arbitrary names are validated by TLC. Divergences exactly explained by the known finding C20-insert-chars are counted as KNOWN-FINDING by TLC re-validating the history with the deviation-on operators; anything else is a violation.",
-    note="Small-scope: model constants 3 (4) packages x 3 tags; concretization of names is sampled. Domain: fresh package names for insert, each package on one line for read, facet_collection on facet::name tags, one current object plus the retained source of the last copy()/reverse_copy() (sources of derivations documented as sharing are not observed; the model watches a source for 2 further calls, the binding until the next copy). Trusted: TLC, the projections of DB.db/DB.rdb, the concretizer. Corrupted control traces must be rejected in every run.",
+    text="TLC explores the closed state space of the two-layer model (3 packages of length 1/2/3 x 3 tags in 2 facets, reads with and without tag filter, inserts, reverse, copies, choose/filter derivations, facet collection; thorough: 4 packages) and checks in every reachable state that the two dictionaries are mutually inverse, refine the reference relation and that the query operators agree with it; with the named deviation InsertNewTagStoresChars switched on TLC reports Inverse violated (negative control). The source of every copy()/reverse_copy() is kept as a second observed object with explicit identities of shared set objects: it stays inverse and unchanged whatever is done to the copy (negative control ShallowCopy: TLC reports SourceInverse violated). Binding is two-way: every transition of the reference LTS plus random walks are replayed into the real DB class (all method variants: _copy forms, reverse/reverse_copy, copy/pickle) comparing both projected pair sets, key sets and all query methods with TLC's expected state, and the retained source of the last copy with the state it was copied in; histories recorded from the real class with up to 30 packages and arbitrary names are validated by TLC. Failing calls are part of the histories (read() whose input or tag_filter raises part-way, qread() of a truncated pickle, other raising calls): the exception must propagate and the object stay consistent (negative controls NonAtomicRead / NonAtomicQread). Derivations are also taken and kept aside while the same object is re-read (read / qread) and derived from again (negative control ReverseViewCached); every method is also called through its deprecated camelCase alias on several live objects (negative control AliasBoundToFirstObject). Names are stressed by characters (non-NFC twins, case hazards, non-BMP, format characters) in both legs and by size in the replay leg (stretched names up to 4 KiB; blow-ups of abstract behaviours to 10 000 packages / 1 000 tags a package). Divergences exactly explained by the known finding C20-insert-chars are counted as KNOWN-FINDING by TLC re-validating the history with the deviation-on operators; anything else is a violation.",
+    note="Small-scope: model constants 3 (4) packages x 3 tags; concretization of names is sampled. Domain: fresh package names for insert, each package on one line for read, facet_collection on facet::name tags, one current object plus the retained source of the last copy()/reverse_copy() (sources of derivations documented as sharing are not observed; the model watches a source for 2 further calls, the binding until the next copy). Unicode whitespace inside names is excluded (parse_tags treats it as format whitespace); size stress runs only on behaviours without insert/facet_collection (no known deviation there) and is judged against the blow-up of TLC's abstract expectation. Trusted: TLC, the projections of DB.db/DB.rdb, the concretizer. Corrupted control traces must be rejected in every run.",
     design="5 (C20)")
 
 KNOWN = "C20-insert-chars"
